@@ -163,3 +163,77 @@ def bounded_flat_run(pack, pid, tier='quick'):
                          'counted_as_proved': False})
     if bad:
         pack.violation(name, {'bounded': True, 'inputs': bad, 'native_cmd': 'load; disable Toggle/Fault/Alter; PFlow.run; TDS.init; TDS.run(tf=0.5)'})
+
+
+def solve_iter_c(pid):
+    """Model.solve_iter: the device-wise Newton initialisation of the named variable group is run exactly once for EVERY device position
+    0 .. n-1 of the model (whatever the device's status), with the same name and inputs."""
+    import z3
+    from pyvc.symex import Contract, Loop
+    from pyvc.symval import TObj, TInt, TOpaque, fresh, I
+    CALLED = 'called'
+
+    def single(ex, st, args, kw, node):
+        ok = len(args) == 3 and args[0] is st.env['name'] and args[1] is st.env['kwargs'] and not kw
+        ex.oblige(st, 'pre@call:solve_iter_single(name,kwargs,pos)', z3.BoolVal(bool(ok)), {})
+        from pyvc.symex import to_z3
+        p = to_z3(args[2])
+        c = st.ghost[CALLED]
+        st.ghost[CALLED] = z3.Store(c, p, c[p] + 1)
+        return None
+
+    def inv(v):
+        i = v.local('$i0')
+        p = fresh('p', I)
+        c = v.st.ghost[CALLED]
+        return z3.ForAll([p], c[p] == z3.If(z3.And(p >= 0, p < i), 1, 0))
+
+    def post(old, new, res):
+        p = fresh('p', I)
+        c = new.st.ghost[CALLED]
+        n = old.z('self.n')
+        return z3.ForAll([p], c[p] == z3.If(z3.And(p >= 0, p < n), 1, 0))
+    c = Contract('andes/core/model/model.py', 'Model.solve_iter', pid=pid, params={'self': TObj(), 'name': TOpaque('Names'), 'kwargs': TOpaque('Inputs')},
+                 schema={'self.n': TInt(), 'self.class_name': TOpaque('Str')},
+                 requires=[('n>=0', lambda v: v.z('self.n') >= 0)],
+                 ghost_init={CALLED: lambda v: z3.K(I, z3.IntVal(0))},
+                 calls={'self.solve_iter_single': single},
+                 loops={0: Loop(inv=[('positions-below-the-loop-index-were-solved-once,others-not-yet', inv)], frame=['$pos', 'ghost:' + CALLED])},
+                 ensures=[('every-device-position-0..n-1-is-solved-exactly-once', post)], modifies=[])
+    return c
+
+
+def replay_solve_iter(obligation=None, model=None, meta=None):
+    """native: stock cases whose exciters are initialised iteratively (EXAC1, ESAC1A, AC8B), first exciter out of service, no
+    disturbance: TDS.init succeeds with residuals below tolerance"""
+    import contextlib
+    import io
+    import logging
+    import warnings
+    import numpy as np
+    import andes
+    logging.getLogger('andes').setLevel(logging.CRITICAL)
+    n = 0
+    for case, name in (('ieee14/ieee14_exac1.xlsx', 'EXAC1'), ('ieee14/ieee14_esac1a.xlsx', 'ESAC1A'), ('ieee14/ieee14_ac8b.xlsx', 'AC8B')):
+        for offline in (True, False):
+            n += 1
+            with contextlib.redirect_stdout(io.StringIO()), contextlib.redirect_stderr(io.StringIO()), warnings.catch_warnings(), np.errstate(all='ignore'):
+                warnings.simplefilter('ignore')
+                ss = andes.load(andes.get_case(case), default_config=True, no_output=True)
+                for evt in ('Toggle', 'Fault', 'Alter'):
+                    mdl = getattr(ss, evt)
+                    for idx in list(mdl.idx.v):
+                        mdl.alter('u', idx, 0)
+                exc = getattr(ss, name)
+                if offline:
+                    exc.alter('u', exc.idx.v[0], 0)
+                ss.PFlow.run()
+                ss.TDS.init()
+            res = np.abs(np.array(ss.dae.fg))
+            tol = ss.TDS.config.tol
+            if ss.TDS.test_ok is not True or not np.max(res) < tol:
+                j = int(np.argmax(res))
+                return {'confirmed': True, 'inputs': {'case': case, 'first %s device' % name: 'u = 0' if offline else 'online'},
+                        'observed': 'TDS.init: test_ok = %r, largest residual %.3e at <%s> (tolerance %g)' % (ss.TDS.test_ok, float(res[j]), ss.dae.xy_name[j], tol),
+                        'native_cmd': 'contracts/fn_handover.py replay_solve_iter'}
+    return {'confirmed': False, 'tried': n}
